@@ -158,6 +158,97 @@ func (o *out) pkgConst(coq, rel, ident string) {
 	o.def(coq, "UNKNOWN_SHAPE", rel+":"+ident)
 }
 
+// bipToPipVar emits a package-level `x = helpers.BipToPip(big.NewInt(N))` as N * 10^18, after checking
+// that helpers.BipToPip still is "10 ** 18 * bip".
+func (o *out) bipToPipVar(coq, rel, ident string) {
+	f := load(rel)
+	if f == nil {
+		o.def(coq, "UNKNOWN_FILE", rel)
+		return
+	}
+	call, ok := findDecl(f, ident).(*ast.CallExpr)
+	if !ok || len(call.Args) != 1 {
+		o.def(coq, "UNKNOWN_SHAPE", rel+":"+ident)
+		return
+	}
+	sel, ok := call.Fun.(*ast.SelectorExpr)
+	if !ok || sel.Sel.Name != "BipToPip" {
+		o.def(coq, "UNKNOWN_SHAPE", rel+":"+ident)
+		return
+	}
+	n, ok := constToZ(evalConst(f, call.Args[0], 0))
+	h := load("helpers/helpers.go")
+	if !ok || h == nil {
+		o.def(coq, "UNKNOWN_SHAPE", rel+":"+ident)
+		return
+	}
+	// helpers.BipToPip: p := big.NewInt(10); p.Exp(p, big.NewInt(18), nil); p.Mul(p, bip); return p
+	lits := funcIntLits(h, "BipToPip")
+	if len(lits) != 2 || lits[0] != "10" || lits[1] != "18" {
+		o.def(coq, "UNKNOWN_SHAPE", "helpers/helpers.go:BipToPip")
+		return
+	}
+	o.def(coq, n+"000000000000000000", rel+":"+ident+" = helpers.BipToPip("+n+")")
+}
+
+// funcIntLits lists the integer literals other than 0 in the body of the named function or method,
+// in source order.
+func funcIntLits(f *file, fn string) []string {
+	var lits []string
+	for _, d := range f.f.Decls {
+		fd, ok := d.(*ast.FuncDecl)
+		if !ok || fd.Name.Name != fn || fd.Body == nil {
+			continue
+		}
+		ast.Inspect(fd.Body, func(n ast.Node) bool {
+			if bl, ok := n.(*ast.BasicLit); ok && bl.Kind == token.INT {
+				if z, ok := constToZ(constant.MakeFromLiteral(bl.Value, bl.Kind, 0)); ok && z != "0" {
+					lits = append(lits, z)
+				}
+			}
+			return true
+		})
+	}
+	return lits
+}
+
+// funcLits emits the single integer literal value (other than 0 and than the literals named in
+// `others`) used in a function body; it must occur exactly `times` times and every literal of
+// `others` exactly as often as stated there (fail closed otherwise).
+func (o *out) funcLits(coq, rel, fn string, times int, what string, others map[string]int) {
+	f := load(rel)
+	if f == nil {
+		o.def(coq, "UNKNOWN_FILE", rel)
+		return
+	}
+	var lits []string
+	seen := map[string]int{}
+	for _, l := range funcIntLits(f, fn) {
+		if _, ok := others[l]; ok {
+			seen[l]++
+			continue
+		}
+		lits = append(lits, l)
+	}
+	for l, n := range others {
+		if seen[l] != n {
+			o.def(coq, "UNKNOWN_SHAPE", rel+":"+fn)
+			return
+		}
+	}
+	if len(lits) != times {
+		o.def(coq, "UNKNOWN_SHAPE", rel+":"+fn)
+		return
+	}
+	for _, l := range lits {
+		if l != lits[0] {
+			o.def(coq, "UNKNOWN_SHAPE", rel+":"+fn)
+			return
+		}
+	}
+	o.def(coq, lits[0], rel+":"+fn+" "+what)
+}
+
 func writeIfChanged(path, content string) {
 	old, err := os.ReadFile(path)
 	if err == nil && string(old) == content {
